@@ -1,11 +1,11 @@
 package main
 
 import (
-	"os"
 	"fmt"
 	"go/ast"
 	"go/token"
 	"go/types"
+	"os"
 	"regexp"
 	"sort"
 	"strings"
@@ -23,22 +23,22 @@ type e8out struct {
 }
 
 type e8row struct {
-	id      string
-	what    string // the specification in words
-	fn      *types.Func
-	run     func(in *e8interp) *e8out // default: whole body of fn with recv/p0.. inputs
-	slice   func(fd *ast.FuncDecl) []ast.Stmt
-	atoms   []string // atoms the specification needs even if the code does not mention them
-	group   func(name string) int
-	pre     func(a *e8assign, names *e8names) bool // may be called with a partial assignment (use a.has)
+	id          string
+	what        string // the specification in words
+	fn          *types.Func
+	run         func(in *e8interp) *e8out // default: whole body of fn with recv/p0.. inputs
+	slice       func(fd *ast.FuncDecl) []ast.Stmt
+	atoms       []string // atoms the specification needs even if the code does not mention them
+	group       func(name string) int
+	pre         func(a *e8assign, names *e8names) bool // may be called with a partial assignment (use a.has)
 	lenEqOpaque bool
-	havoc   bool
-	rangeOnce bool
-	rangeMax  int
-	maxBools  int
-	opaquePkg map[*types.Package]bool
-	opaque  map[*types.Func]bool
-	spec    func(a *e8assign, names *e8names, out *e8out) string
+	havoc       bool
+	rangeOnce   bool
+	rangeMax    int
+	maxBools    int
+	opaquePkg   map[*types.Package]bool
+	opaque      map[*types.Func]bool
+	spec        func(a *e8assign, names *e8names, out *e8out) string
 }
 
 // e8names gives the spec access to the discovered atom names.
@@ -829,7 +829,7 @@ func (p *Program) e8Rows() map[string]*e8row {
 	// Segment.IntersectsSegment: the comparison prefix
 	iseg := p.Method("geometry", "Segment", "IntersectsSegment")
 	add(&e8row{id: "geometry.Segment.IntersectsSegment#box-prefix", fn: iseg,
-		what: "before any arithmetic the function returns false exactly when the closed bounding boxes of the two segments are disjoint, and true only for a shared endpoint",
+		what:  "before any arithmetic the function returns false exactly when the closed bounding boxes of the two segments are disjoint, and true only for a shared endpoint",
 		slice: comparisonPrefix,
 		spec: func(a *e8assign, n *e8names, out *e8out) string {
 			disjoint := false
@@ -873,7 +873,7 @@ func (p *Program) e8Rows() map[string]*e8row {
 		return false, false
 	}
 	add(&e8row{id: "geometry.Segment.Raycast#comparison-prefix", fn: rc,
-		what: "before any arithmetic: an early {false,false} for a non-horizontal segment means the point's Y lies outside the segment's Y range and always happens then; for horizontal, vertical and zero-length segments 'on' is returned exactly when the point lies on the closed segment; 'in' is never reported here",
+		what:  "before any arithmetic: an early {false,false} for a non-horizontal segment means the point's Y lies outside the segment's Y range and always happens then; for horizontal, vertical and zero-length segments 'on' is returned exactly when the point lies on the closed segment; 'in' is never reported here",
 		slice: comparisonPrefix,
 		spec: func(a *e8assign, n *e8names, out *e8out) string {
 			py, ay, by := R(a, "p0.Y"), R(a, "recv.A.Y"), R(a, "recv.B.Y")
